@@ -44,6 +44,38 @@ def const_int(prog, fn, o):
             vals.add(x)
     if len(vals) == 1 and not org.params and not org.binops:
         return vals.pop()
+    if org.binops and not org.params and not org.calls:
+        return fold_int(prog, fn, o)
+    return None
+
+
+def fold_int(prog, fn, o, depth=0):
+    """evaluate an integer expression over literals (`15 * 2`, `7 * 4 + 2`): MIR keeps such arithmetic as checked binops"""
+    if depth > 12:
+        return None
+    if o['k'] == 'const':
+        return const_int(prog, fn, o)
+    l = o['pl']['l']
+    d = fn.single_def(l)
+    if d is None or d[2] != 'stmt':
+        return None
+    r = d[3]['r']
+    if r['rv'] == 'use':
+        return fold_int(prog, fn, r['ops'][0], depth + 1)
+    if r['rv'] == 'cast' and r.get('ops'):
+        return fold_int(prog, fn, r['ops'][0], depth + 1)
+    if r['rv'] == 'binop':
+        a = fold_int(prog, fn, r['ops'][0], depth + 1)
+        b = fold_int(prog, fn, r['ops'][1], depth + 1)
+        if a is None or b is None:
+            return None
+        op = r['op'].replace('WithOverflow', '').replace('Unchecked', '')
+        if op == 'Add':
+            return a + b
+        if op == 'Sub':
+            return a - b
+        if op == 'Mul':
+            return a * b
     return None
 
 
